@@ -15,6 +15,7 @@ type GenOpts struct {
 	Saturated bool     // C05: buffered, prefilled inputs that never run empty; only receive/release/time ops
 	Fault     bool     // C15: divider fault plan
 	AnyH      bool     // C15: H may be below the minimum the constructor accepts
+	V1AnyH    bool     // v1 accepts every non-zero H: also generate an H that leaves a priority without a share
 	StopOps   bool     // C16: v1 Stop / cancel inserted
 	StopHalf  bool     // with StopOps: only about half of the v1 scripts are stopped, the others end gracefully
 	AddRemove bool     // C17: v1 AddInput / RemoveInput ops
@@ -100,6 +101,11 @@ func Gen(o GenOpts) *rapid.Generator[Script] {
 			// keep the number of handlers (hence items in flight per script) moderate
 			ps = ps[:1]
 		}
+		if (s.Div == "fair" || s.Div == "fairlow") && rapid.IntRange(0, 9).Draw(t, "zeroprio") == 0 {
+			// 0 is a priority value like any other (a uint map key); only dividers that do not
+			// compute with the values give it a share
+			ps[len(ps)-1] = 0
+		}
 		if (s.Div == "fair" || s.Div == "fairlow") && rapid.IntRange(0, 9).Draw(t, "hugeprio") == 0 {
 			// priority values are plain uint map keys: the top of the range is as valid as 3, 2, 1
 			// (only for the dividers that do not compute with the values)
@@ -171,7 +177,7 @@ func Gen(o GenOpts) *rapid.Generator[Script] {
 		if o.AnyH && rapid.IntRange(0, 3).Draw(t, "anyh") == 0 {
 			s.H = uint(rapid.IntRange(1, int(mh)+2).Draw(t, "hraw"))
 		}
-		if o.Saturated && s.Ver == 1 && rapid.IntRange(0, 3).Draw(t, "v1anyh") == 0 {
+		if (o.Saturated || o.V1AnyH) && s.Ver == 1 && rapid.IntRange(0, 3).Draw(t, "v1anyh") == 0 {
 			// the v1 constructor accepts every non-zero H, also one that leaves a priority without a share
 			s.H = uint(rapid.IntRange(1, int(mh)+1).Draw(t, "hraw1"))
 		}
